@@ -3,7 +3,7 @@ import os, re, sys
 sys.path.insert(0, os.path.dirname(__file__))
 from transplant import *
 
-DST = "/verif/harness/d_reg/src/gen/reg"
+DST = os.path.join(os.path.dirname(os.path.dirname(os.path.abspath(__file__))), "harness", *"d_reg/src/gen/reg".split("/"))
 FILES = ["address.rs", "error.rs", "metadata.rs", "permissions.rs", "reg_crdt.rs", "register.rs", "register_op.rs"]
 
 
